@@ -6,6 +6,7 @@ import (
 	"github.com/CloudyKit/jet/v6"
 	"reflect"
 	"strconv"
+	"strings"
 )
 
 // Recipe is a JSON-serialisable description of a Go value; Build turns it
@@ -43,6 +44,11 @@ type User struct {
 func (u User) Greeting() string      { return "hi " + u.Name }
 func (u *User) PtrName() string      { return "ptr:" + u.Name }
 func (u User) Twice(s string) string { return s + s }
+
+// KindStrg is of kind string and a fmt.Stringer at once: what it says is what counts, as for every Stringer.
+type KindStrg string
+
+func (k KindStrg) String() string { return strings.TrimPrefix(string(k), "underlying:") }
 
 type Strg struct{ S string }
 
@@ -224,6 +230,8 @@ func Build(r Recipe) interface{} {
 		return map[string]int(nil)
 	case "nil*user":
 		return (*User)(nil)
+	case "nilfunc":
+		return (func())(nil)
 	case "map[string]int":
 		m := map[string]int{}
 		for i, k := range r.Keys {
@@ -269,6 +277,25 @@ func Build(r Recipe) interface{} {
 		}
 		close(c)
 		return c
+	case "<-chan int": // what a producer hands out: a channel that can only be received from
+		c := make(chan int, len(r.Is)+1)
+		for _, x := range r.Is {
+			c <- int(x)
+		}
+		close(c)
+		return (<-chan int)(c)
+	case "iota": // []int{0, 3, 6, ...} with I elements
+		xs := make([]int, r.I)
+		for i := range xs {
+			xs[i] = 3 * i
+		}
+		return xs
+	case "iota-array": // *[260]int{0, 3, 6, ...}
+		var xs [260]int
+		for i := range xs {
+			xs[i] = 3 * i
+		}
+		return &xs
 	case "chan string":
 		c := make(chan string, len(r.Ss)+1)
 		for _, x := range r.Ss {
@@ -282,6 +309,8 @@ func Build(r Recipe) interface{} {
 		return &PlainRanger{Items: append([]string{}, r.Ss...)}
 	case "stringer":
 		return Strg{S: r.S}
+	case "kindstringer": // a value of kind string whose String method says something else than the string it is made of
+		return KindStrg("underlying:" + r.S)
 	case "*stringer":
 		return &Strg{S: r.S}
 	case "error":
